@@ -23,8 +23,8 @@ def check(ctx):
 
 
 MUTANTS = [
-    ("default-ready-any", S, "ready.eq(cond if cond is not None else ~Cat(*conds).any())", "ready.eq(cond if cond is not None else ~Cat(*conds).all())"),
-    ("default-ready-always", S, "ready.eq(cond if cond is not None else ~Cat(*conds).any())", "ready.eq(cond if cond is not None else 1)"),
+    ("default-ready-any", S, "ready.eq(Value.cast(cond).bool() if cond is not None else ~Cat(*conds).any())", "ready.eq(Value.cast(cond).bool() if cond is not None else ~Cat(*conds).all())"),
+    ("default-ready-always", S, "ready.eq(Value.cast(cond).bool() if cond is not None else ~Cat(*conds).any())", "ready.eq(Value.cast(cond).bool() if cond is not None else 1)"),
     ("conds-not-recorded-with-priority", S, "        conds.append(ready)\n", "        if not priority:\n            conds.append(ready)\n"),
     ("priority-chain-from-first", S, "transactions[-1].schedule_before(transaction._body)", "transactions[0].schedule_before(transaction._body)"),
     ("priority-chain-always", S, "        if transactions and priority:", "        if transactions:"),
@@ -37,7 +37,11 @@ MUTANTS = [
     ("branch-ready-ignored", S, ".body(m, ready=ready):\n            yield", ".body(m):\n            yield"),
     ("merged-calls-unconditional", core.MANAGER, "methods[transaction](m, enable_call=Cat(dep.run for dep in nontrivial_deps).all())", "methods[transaction](m, enable_call=Cat(dep.run for dep in nontrivial_deps).any())"),
     ("condcalled-marks-link", core.MANAGER, "                        ret.add(method)\n", "                        ret.add(callee)\n"),
-    ("condcalled-dep-only-with-new-method", core.MANAGER, "                            conditional_to_infect.append(called_method)\n                    ret.add(dep)", "                            conditional_to_infect.append(called_method)\n                            ret.add(dep)"),
+    ("condcalled-dep-only-with-new-method", core.MANAGER, "                    if dep not in ret:\n                        ret.add(dep)\n                        conditional_to_infect.append(dep)\n", "                            if dep not in ret:\n                                ret.add(dep)\n                                conditional_to_infect.append(dep)\n"),
+    ("condcalled-dep-not-visited", core.MANAGER, "                        ret.add(dep)\n                        conditional_to_infect.append(dep)\n", "                        ret.add(dep)\n"),
+    ("condition-bit0-only", S, "ready.eq(Value.cast(cond).bool() if cond is not None", "ready.eq(cond if cond is not None"),
+    ("alternatives-not-conflicting", S, "            transaction.add_conflict(other)\n", "            pass\n"),
+    ("alternatives-conflict-only-neighbours", S, "for other in transactions[i + 1 :]:", "for other in transactions[i + 1 : i + 2]:"),
     ("condcalled-no-transitive", core.MANAGER, "                            conditional_to_infect.append(called_method)\n", ""),
     ("condcalled-not-ready-dependent-accepted", core.MANAGER, "if dep in ready_dependent and dep in method_map.transactions:", "if dep in method_map.transactions:"),
     ("condcalled-caller-shifted", core.MANAGER, "zip(call.ancestors, (*call.ancestors[1:], transaction))", "zip(call.ancestors, (*call.ancestors[:-1], transaction))"),
